@@ -936,6 +936,10 @@ class Verifier(ExprMixin, CallMixin, BuiltinMixin, StmtMixin, Executor):
         sti = sth.assume(z3.And(0 <= i, i <= n))
         for name, e in invs:
             sti = sti.assume(self.spec_bool(e, sti, envh, self.loop_pre(st)))
+        if invs and not self.feasible(sti) and self.feasible(sth):
+            # vacuity guard: an invariant that nothing satisfies would make the loop body, the loop exit and everything
+            # after the loop disappear together with their obligations
+            raise OutOfReach('the invariants of loop #%d are unsatisfiable at an arbitrary iteration' % ordinal)
         # 2a. body from an arbitrary iteration
         stb = sti.assume(i < n)
         stb, x = item(stb, i)
